@@ -7,6 +7,7 @@ import (
 	"os"
 	"runtime/debug"
 	"strconv"
+	_ "time/tzdata" // the out-of-process replica of C18 runs in another time zone, whatever the host has installed
 
 	"verifharness/mon"
 	"verifharness/props"
@@ -19,6 +20,21 @@ func main() {
 		os.Exit(2)
 	}
 	id := os.Args[1]
+	if id == "__c18replica__" {
+		// child process of the C18 check: run one history, write its transcript, exit
+		if len(os.Args) != 8 {
+			os.Exit(3)
+		}
+		seed, _ := strconv.ParseUint(os.Args[3], 10, 64)
+		steps, _ := strconv.Atoi(os.Args[4])
+		mode, _ := strconv.Atoi(os.Args[5])
+		anchor, _ := strconv.ParseInt(os.Args[6], 10, 64)
+		if err := props.C18Child(os.Args[2], seed, steps, mode, anchor, os.Args[7]); err != nil {
+			fmt.Println(err)
+			os.Exit(3)
+		}
+		os.Exit(0)
+	}
 	tier := os.Getenv("VERIF_TIER")
 	if tier == "" {
 		tier = "quick"
